@@ -249,7 +249,7 @@ func (j *JoinGame) decodeLegacy(c *proto.PacketContext, rd io.Reader) (err error
 	if c.Protocol.GreaterEqual(version.Minecraft_1_9_1) {
 		r.Int(&j.Dimension)
 	} else {
-		j.Dimension = int(util.PReadByteVal(rd))
+		j.Dimension = int(int8(util.PReadByteVal(rd))) // signed byte: -1 is the nether
 	}
 	if c.Protocol.LowerEqual(version.Minecraft_1_13_2) {
 		j.Difficulty = int16(util.PReadByteVal(rd))
